@@ -208,7 +208,8 @@ def write_replay(pid, v):
     body = {"property": pid, "sig": v["sig"], "case_repr": repr(v["case"]), "case": case_to_json(v["case"]),
             "expected": v["expected"], "observed": v["observed"], "note": v.get("note", ""),
             "repro_py": v.get("repro_py", "")}
-    h = hashlib.sha1(body["case_repr"].encode("utf-8", "backslashreplace") + pid.encode()).hexdigest()[:16]
+    h = hashlib.sha1(body["case_repr"].encode("utf-8", "backslashreplace") + pid.encode() +
+                     str(v["sig"]).encode("utf-8", "backslashreplace")).hexdigest()[:16]
     path = os.path.join(d, h + ".json")
     with open(path, "w", encoding="utf-8") as f:
         json.dump(body, f, indent=1, ensure_ascii=True)
@@ -261,16 +262,25 @@ def finish(mod, tier, seed, total, wall, n_units, n_done, capped, units_list=Non
                 # until the first violation; that run is deterministic.
                 s1 = _sequential_first(mod, tier, seed, 150, units=units_list)
                 s2 = _sequential_first(mod, tier, seed, 150, units=units_list) if s1 and not isinstance(s1, str) else None
-                if not s1 or s1 != s2 or isinstance(s1, str):
-                    sys.stderr.write("HARNESS-ERROR: violation sig=%s does not replay deterministically:\n case=%r\n"
-                                     " r1=%r\n r2=%r\n unit re-runs: %r / %r\n sequential runs: %r / %r\n"
-                                     % (sig, v["case"], r1, r2, u1, u2, s1, s2))
+                if isinstance(s1, str) or isinstance(u1, str) or isinstance(r1, str):
+                    sys.stderr.write("HARNESS-ERROR while replaying violation sig=%s:\n case=%r\n r1=%r\n unit re-run: %r\n"
+                                     " sequential run: %r\n" % (sig, v["case"], r1, u1, s1))
                     return 3
-                v = dict(v, sig=s1[1], case={"__sequential__": s1[0], "tier": tier, "seed": seed, "sig": s1[1],
-                                             "first_case": v["case"]},
-                         note="history-dependent across work units: reproduces when the units are run sequentially "
-                              "in one process (first violation in unit #%d)" % s1[0])
-                sig = s1[1]
+                if s1 and s1 == s2:
+                    v = dict(v, sig=s1[1], case={"__sequential__": s1[0], "tier": tier, "seed": seed, "sig": s1[1],
+                                                 "first_case": v["case"]},
+                             note="history-dependent across work units: reproduces when the units are run sequentially "
+                                  "in one process (first violation in unit #%d)" % s1[0])
+                    sig = s1[1]
+                else:
+                    # The wrong answer was observed on the real code during the exploration, but it depends on which
+                    # work units the worker process had run before (library state that outlives a unit).  It is
+                    # reported - with the case as observed - rather than dropped; the replay file says so.
+                    sys.stderr.write("NOTE: violation sig=%s was observed during the parallel exploration but reproduces "
+                                     "neither alone, nor in its work unit, nor in a sequential run (schedule-dependent "
+                                     "library state)\n" % sig)
+                    v = dict(v, note="observed during the parallel exploration; NOT reproducible in isolation: depends on "
+                                     "library state left behind by other work units of the same worker process")
             if any(l.startswith("VIOLATION") and ("sig=%s " % sig) in lines[i + 1] for i, l in enumerate(lines[:-1])):
                 continue      # already reported under this signature
         if hasattr(mod, "repro_py"):
